@@ -95,8 +95,9 @@ def parseNum (cs : Str) : Option Dec :=
 inductive Cell where
   /-- integer column (ITERATION, SUBJECT_NO, ID): Fortran `I13`. -/
   | int (i : Int)
-  /-- `1PE13.5`: ±d.dddddE±xx, value = ±mant × 10^(exp-5), `mant < 10^6`. -/
-  | sci (neg : Bool) (mant : Nat) (exp : Int)
+  /-- `1PEw.d` (d = 5 in ext/phi/cov files, 4 in default $TABLE output): ±m.ddd…dE±xx with `d`
+      decimals, value = ±mant × 10^(exp-d), `mant < 10^(d+1)`. -/
+  | sci (neg : Bool) (d : Nat) (mant : Nat) (exp : Int)
   /-- plain decimal (OBJ column): ±ip.fp with exactly `k` fraction digits. -/
   | fix (neg : Bool) (ip : Nat) (k : Nat) (fp : Nat)
   /-- text (NAME column of cov/cor/coi). -/
@@ -111,8 +112,8 @@ def expDigits (a : Nat) : Str := if a < 100 then padDigits 2 a else natDigits a
 
 def renderCell : Cell → Str
   | .int i => if i < 0 then '-' :: natDigits (-i).toNat else natDigits i.toNat
-  | .sci neg mant exp =>
-    signStr neg ++ padDigits 1 (mant / 100000) ++ '.' :: padDigits 5 mant
+  | .sci neg d mant exp =>
+    signStr neg ++ padDigits 1 (mant / 10 ^ d) ++ '.' :: padDigits d mant
       ++ 'E' :: (if exp < 0 then '-' else '+') :: expDigits exp.natAbs
   | .fix neg ip k fp => signStr neg ++ natDigits ip ++ '.' :: padDigits k fp
   | .label s => s
@@ -120,7 +121,7 @@ def renderCell : Cell → Str
 /-- The exact value a numeric cell denotes. -/
 def cellDec : Cell → Option Dec
   | .int i => some ⟨i, 0⟩
-  | .sci neg mant exp => some ⟨if neg then -(mant : Int) else mant, exp - 5⟩
+  | .sci neg d mant exp => some ⟨if neg then -(mant : Int) else mant, exp - (d : Int)⟩
   | .fix neg ip k fp =>
     let m : Int := ((ip * 10 ^ k + fp % 10 ^ k : Nat) : Int)
     some ⟨if neg then -m else m, -(k : Int)⟩
